@@ -93,6 +93,8 @@ func (cl *Cluster) offsetFetchVariants(r *Req, req *sarama.OffsetFetchRequest) [
 			vs = append(vs, cl.wrap(r, "OffsetFetch", f, func() { answer(sarama.ErrOffsetsLoadInProgress) }))
 		case "notcoord":
 			vs = append(vs, cl.wrap(r, "OffsetFetch", f, func() { answer(sarama.ErrNotCoordinatorForConsumer) }))
+		case "other":
+			vs = append(vs, cl.wrap(r, "OffsetFetch", f, func() { answer(sarama.ErrGroupAuthorizationFailed) }))
 		case "drop":
 			vs = append(vs, cl.wrap(r, "OffsetFetch", f, func() { cl.drop(r.Conn) }))
 		}
